@@ -46,7 +46,8 @@ X1 == <<[pre |-> <<>>, lo |-> <<"x">>, v |-> <<"1">>]>>
 PX == <<[pre |-> P, lo |-> <<"x">>, v |-> <<"a", "sp", "<">>], [pre |-> <<>>, lo |-> <<"y">>, v |-> <<>>]>>
 StartTags == IF ItemPool = "starts" THEN   \* nesting chains: only what matters for namespace scoping
                { <<A_, <<>>, <<>>>>, <<A_, <<B(<<>>, U1)>>, <<>>>>, <<A_, <<B(<<>>, <<>>)>>, <<>>>>, <<PA, <<B(P, U1)>>, <<>>>>,
-                 <<A_, <<B(XmlPre, XmlUri)>>, <<>>>> }   \* the xml prefix declared explicitly (legal, and a no-op)
+                 <<A_, <<B(XmlPre, XmlUri)>>, <<>>>>,    \* the xml prefix declared explicitly (legal, and a no-op)
+                 <<A_, <<B(<<>>, U1), B(P, U1)>>, <<>>>> }   \* the default namespace declared BEFORE a prefix (xmlns="" below it removes a middle entry)
              ELSE IF FullProduct THEN {<<q, ds, as>> : q \in ElemQ, ds \in DeclSets, as \in AttrSets}
              ELSE { <<A_, <<>>, <<>>>>, <<A_, <<B(<<>>, U1)>>, X1>>, <<PA, <<B(P, U1)>>, PX>>, <<A_, <<B(<<>>, <<>>)>>, <<>>>>,
                     <<PA, <<B(P, U2)>>, <<>>>>, <<QB, <<B(Q, U1), B(<<>>, U2)>>, X1>>, <<A_, <<B(P, U1)>>, <<>>>>, <<PA, <<>>, X1>>,
